@@ -6,7 +6,7 @@ import C15, C16, C13, C10, C12, C05, C07, C20, C18
 
 def jobs(tier):
     J = []
-    for sc in range(1, 22):
+    for sc in range(1, 24):
         J.append(V.Job("add_scenario.%02d" % sc, "vnacal/c03_add.c", "h_add_scenario", C20.BASE,
                        defines=C20.CUT + ["-DSCENARIO=%d" % sc], unwind=14, union_struct=True, kind="bounded",
                        canary=(sc in (1, 3)),
@@ -21,6 +21,10 @@ def jobs(tier):
                    C20.BASE + ["vnacal_new_set_m_error.c", "vnacommon_spline.c"], defines=C20.CUT + ["-DZERO_M_ERROR"], unwind=14,
                    union_struct=True, kind="bounded", functions=["vnacal_new_set_m_error", "vnacal_new_set_frequency_vector"],
                    bound="T8 2x2 calibration with 0 frequencies, noise model on a two-point grid", timeout=200))
+    J.append(V.Job("zero_frequencies_add", "vnacal/c03_add.c", "h_zero_frequencies",
+                   C20.BASE + ["vnacal_make_vector_parameter.c", "vnacal_delete_parameter.c"], defines=C20.CUT + ["-DZERO_ADD"], unwind=14,
+                   union_struct=True, kind="bounded", functions=["vnacal_new_add_single_reflect_m", "get_parameter_node", "vnacal_new_set_frequency_vector"],
+                   bound="T8 2x2 calibration with 0 frequencies, frequency vector given, then a reflect standard with a vector parameter", timeout=300))
     J.append(V.Job("empty_calibration", "vnacal/c03_add.c", "h_empty_calibration",
                    C20.BASE + ["vnacal_get.c"], defines=C20.CUT + ["-DEMPTY_CALIBRATION"], unwind=14,
                    union_struct=True, kind="bounded",
@@ -54,7 +58,7 @@ def jobs(tier):
     import C11
     take(C11, [r"refused\.make_correlated\.case[0126]$", r"solve_frame\..*resolved"], "vnacal")   # refusal paths free their private copies
     import C01
-    take(C01, [r"apply_frame\.(T8|UE14)_f[02]$"], "vnacal")      # apply: no read outside the caller's vectors, also for an empty request
+    take(C01, [r"apply_frame\.(T8|UE14)_(f[02]|cal0)$"], "vnacal")      # apply: no read outside the caller's vectors, also for an empty request
     take(C12, [r"vnacal_corr\.k00$"], "vnacal")       # parameter chains incl. a borrowed sigma frequency vector: freed exactly once
     return J
 
